@@ -385,7 +385,7 @@ def _omitted_ok(env, spec, v, d, where=""):
         if HY.is_h(ft):
             if isinstance(d.get(pn), dict):
                 ok = _omitted_ok(env, ft, v[fn], d[pn], where + pn + ".") and ok
-        elif dflt is not None and ft[0] in ("scalar", "array"):
+        elif dflt is not None and ft[0] in ("scalar", "array", "string"):
             dflt = HY.dval(dflt)
             if V.same(V.expected(ft, v.get(fn, dflt)), V.expected(ft, dflt)):
                 ok = env.check(pn not in d, f"C19 a field equal to its declared default is omitted from the dictionary ({where}{pn})") and ok
@@ -458,6 +458,7 @@ def sc_c20h(env, spec, v, cfg):
         env.reach()
         return
     env.no_stores_since(m0, "C20 pickling does not modify the originals' buffer")
+    wmode.pickle_again_ok(env, [h, h2, nbL], buf, lambda cs: hread_ok(env, spec, cs[0], exp, "C20 a second pickling of the same objects gives the same value again"))
     env.check(type(c1) is type(h), "C20 the unpickled object is of the hybrid class")
     env.check(c1._buffer is not buf, "C20 the unpickled hybrid object lives in a buffer of its own")
     env.check(c1._buffer is c2._buffer and c1._buffer is cn._buffer, "C20 hybrid objects pickled together that shared a buffer still share one")
